@@ -754,6 +754,13 @@ fn vp_native_redirect_matrix_body() {
             let status: u16 = seg[2].parse().unwrap(); let n: u32 = query.as_deref().and_then(|q| q.strip_prefix("h=")).and_then(|v| v.parse().ok()).unwrap_or(0);
             return if n == 0 { resp(200, None, "end") } else { resp(status, Some(&format!("?h={}", n - 1)), "") };
         }
+        if seg.len() >= 3 && seg[1] == "samedoc" {
+            // a same-document reference (empty or fragment-only Location) names the URL of this hop itself, query included: the first
+            // request for a target is redirected to "itself", the second is answered
+            let status: u16 = seg[2].parse().unwrap();
+            let times = seen2.lock().unwrap().iter().filter(|t| **t == target).count();
+            return if times >= 2 { resp(200, None, "same") } else { resp(status, Some(if seg.get(3) == Some(&"empty") { "" } else { "#done" }), "") };
+        }
         if seg.len() >= 3 && seg[1] == "up" {
             // /up/<status>/d/d/../ : every level answers with the same relative reference `../` until the top is reached
             let status: u16 = seg[2].parse().unwrap(); let depth = seg[3..].iter().filter(|x| **x == "d").count();
@@ -833,6 +840,19 @@ fn vp_native_redirect_matrix_body() {
         let r = soff.get(format!("{}/c/301/2/path/x", base)).send().unwrap(); cases += 1;
         assert_eq!((r.status().as_u16(), seen.lock().unwrap().len()), (301, 1), "the session switched following off");
     }
+    // an empty or fragment-only Location is a reference to the same document: the next request goes to this hop's URL, query included
+    for status in [301u16, 302, 303, 307, 308] { for form in ["empty", "frag"] { for q in ["?token=1&x=y", ""] {
+        let start = format!("{}/samedoc/{}/{}/x{}", base, status, form, q);
+        seen.lock().unwrap().clear();
+        let res = s.get(&start).send(); cases += 1;
+        let sent = seen.lock().unwrap().clone();
+        let ctx = format!("status {} Location {:?} on a hop with query {:?}", status, if form == "empty" { "" } else { "#done" }, q);
+        let r = res.unwrap_or_else(|e| panic!("{}: {} (requests {:?})", ctx, e, sent));
+        let want_target = format!("/samedoc/{}/{}/x{}", status, form, q);
+        assert_eq!(sent, vec![want_target.clone(), want_target.clone()], "{}: both requests go to the hop's own URL", ctx);
+        let mut u = r.url().clone(); u.set_fragment(None);
+        assert_eq!((r.status().as_u16(), u.as_str()), (200, &start[..]), "{}", ctx);
+    } } }
     // the same relative Location on consecutive hops names a different URL each time (it is resolved against the hop that sent it)
     for status in [301u16, 302, 303, 307, 308] { for n in 0usize..5 { for max in [0u32, 1, 2, 5] {
         let start = format!("{}/up/{}/{}", base, status, "d/".repeat(n));
